@@ -20,7 +20,8 @@ echo "demo with change rc=$with (want != 0), without change rc=$without (want 0)
 suite="skipped"
 if [ "${SEEDED_SUITE:-1}" = 1 ]; then
   cargo test --workspace --no-run --offline >/dev/null 2>&1   # build outside the lock (the lock only serialises the fixed ports)
-  flock /tmp/penguin-suite.lock cargo test --workspace --no-fail-fast --offline >/tmp/out-$ID/suite.log 2>&1
+  # own network namespace (private loopback): the suite's fixed ports do not clash with other runs, no lock needed
+  unshare -n bash -c 'ip link set lo up; exec cargo test --workspace --no-fail-fast --offline' >/tmp/out-$ID/suite.log 2>&1
   failed=$(python3 - /tmp/out-$ID/suite.log <<'PY'
 import json,re,sys
 base=set(x.split('::',1)[1] for x in json.load(open('/root/.vp/BASELINE.json'))['stable_pass'])
